@@ -77,6 +77,7 @@ def run_line(case):
   n = int(D + F(1, 2))
   exp = [B + i * (E - B) / (D - (1 if finish else 0)) for i in range(n)]
   nt = D.denominator != 1
+  list(line(Q(D) + 1, Q(B) - 2, Q(E) + 3, not finish) if D + 1 != (0 if finish else 1) else [])   # decoy call
   if typ == "Q":
     got = list(line(Q(D), Q(B), Q(E), finish=finish)) if finish else list(line(Q(D), Q(B), Q(E)))
     if exact_list(got) != exp:
@@ -259,6 +260,7 @@ def run_modcounter(case):
   a_mod = arg([M] * N, mask & 2, M)
   a_step = arg(steps, mask & 4, T)
   try:
+    modulo_counter(Q(S) + 1, Q(M) * 2, Q(T) - 1).take(5)                                   # decoy call
     st = modulo_counter(a_start, a_mod, a_step)
     got = st.take(N)
   except Exception as exc:
@@ -322,6 +324,8 @@ def run_table(case):
   phase = Q(ph) / Q(cycle_length)
   N = 12
   try:
+    TableLookup([Q(7)] * size, cycles)(freq * 2, phase + 1).take(3)                          # decoy
+    t(freq * 3, phase).take(2)                                                                # same table, other frequency
     got = t(freq, phase).take(N)
   except Exception as exc:
     return bad("table:exception:" + type(exc).__name__, "TableLookup call raised", None, str(exc)[:200])
@@ -524,6 +528,7 @@ def run_resample(case):
   if n == 0:
     exp = []
   try:
+    list(resample([Q(1), Q(2), Q(4), Q(8)], Q(3), Q(2), order=p, zero=Q(5)))                   # decoy call
     st = resample(list(x), order=p, zero=zero, **kw)
     got = []
     for v in st:
